@@ -142,11 +142,11 @@ func (e *Env) drawCalls(cfg *WCfg, n, writer, phase int, calls *[]*WCall) []*WCa
 	for i := 0; i < n; i++ {
 		c := &WCall{Idx: len(*calls), Writer: writer, Phase: phase}
 		c.Entry = cfg.Entries[e.P(len(cfg.Entries))]
-		nsz := 8
 		if cfg.BigSizes {
-			nsz = len(sizeTable)
+			c.Size = e.PSize(sizeTable, 70001)
+		} else {
+			c.Size = e.PSize(sizeTable[:8], 3000)
 		}
-		c.Size = sizeTable[e.P(nsz)]
 		if cfg.SmallReaders && c.Entry == EReadFrom && c.Size > 1024 {
 			c.Size = 1024
 		}
